@@ -312,7 +312,7 @@ CONFIG = {
         "assumptions": ["field and point arithmetic refine arithmetic mod p (observed)",
                         "Model/GoInt.lean reads Go's int64 +, -, *, <<, >>, & (2^j-1), | and byte() correctly where the generated side conditions hold"],
         "extractors": [{"name": "sclimbs", "out": "ScLimbs.lean"}],
-        "aux_driver": {"exe": "scdriver", "ops": ["c14.screduce", "c14.scmuladd"]},
+        "aux_driver": {"exe": "scdriver", "ops": ["c14.screduce", "c14.scmuladd", "c14.sccanon"]},
         "extra_modules": ["PatVerif.Proofs.Sig", "PatVerif.Proofs.DER", "PatVerif.Proofs.ScReduce", "PatVerif.Proofs.ScMulAdd", "PatVerif.Proofs.ScScalar"],
         "contradicts": "PatVerif.Props.C14",
     },
@@ -330,7 +330,7 @@ CONFIG = {
         "assumptions": ["A lies in the prime-order subgroup for unblind_blind",
                         "Model/GoInt.lean reads Go's int64 operators correctly where the generated side conditions hold"],
         "extractors": [{"name": "sclimbs", "out": "ScLimbs.lean"}],
-        "aux_driver": {"exe": "scdriver", "ops": ["c14.screduce", "c14.scmuladd"]},
+        "aux_driver": {"exe": "scdriver", "ops": ["c14.screduce", "c14.scmuladd", "c14.sccanon"]},
         "extra_modules": ["PatVerif.Proofs.Group", "PatVerif.Proofs.Sig", "PatVerif.Proofs.ScReduce", "PatVerif.Proofs.ScMulAdd", "PatVerif.Proofs.ScScalar"],
         "contradicts": "PatVerif.Props.C15",
     },
